@@ -22,17 +22,53 @@ EXTENDS Naturals, Integers, Sequences, Text, BigNat, Sexp
 
 NoTail == [t |-> "none"]
 
-\* the four unquoted Rust expressions available in the generated code and their values:
-\*   n = 42i32        s = "str"        (n + 1)        (v.clone()) with v = Value::symbol("sym")
+\* the unquoted Rust expressions available in the generated code (one per From impl of Value and a few expression
+\* forms), their source, the value Value::from gives them and its text:
+\*   n = 42i32   s = "str"   (n + 1)   (v.clone()) with v = Value::symbol("sym")   (n > 1)   ch = 'λ'   fl = 2.5f64
+\*   String::from("own")   vec![1u8, 2u8]   (1, "x")   vec![Value::from(1), Value::from(2)]   7u64   -7i8
+UnqKinds == {"n", "s", "e", "v", "b", "c", "f", "o", "y", "p", "w", "u", "i"}
 UnqValue(w) ==
-  CASE w = "n" -> IntV(FALSE, <<4, 2>>) [] w = "s" -> Str(<<115, 116, 114>>)
-    [] w = "e" -> IntV(FALSE, <<4, 3>>) [] OTHER -> Sym(<<115, 121, 109>>)
+  CASE w = "n" -> IntV(FALSE, <<4, 2>>)
+    [] w = "s" -> Str(<<115, 116, 114>>)
+    [] w = "e" -> IntV(FALSE, <<4, 3>>)
+    [] w = "v" -> Sym(<<115, 121, 109>>)
+    [] w = "b" -> Bool(TRUE)
+    [] w = "c" -> Char(955)
+    [] w = "f" -> FltV(FALSE, <<2, 5>>, 0 - 1)
+    [] w = "o" -> Str(<<111, 119, 110>>)
+    [] w = "y" -> Bytes(<<1, 2>>)
+    [] w = "p" -> Cons(IntV(FALSE, <<1>>), Str(<<120>>))
+    [] w = "w" -> Vec(<<IntV(FALSE, <<1>>), IntV(FALSE, <<2>>)>>)
+    [] w = "u" -> IntV(FALSE, <<7>>)
+    [] OTHER -> IntV(TRUE, <<7>>)
 UnqSource(w) ==
-  CASE w = "n" -> <<COMMA, 110>> [] w = "s" -> <<COMMA, 115>>
-    [] w = "e" -> <<COMMA, LP, 110, SP, PLUS, SP, 49, RP>> [] OTHER -> <<COMMA, LP, 118, DOT, 99, 108, 111, 110, 101, LP, RP, RP>>
+  CASE w = "n" -> <<44, 110>>
+    [] w = "s" -> <<44, 115>>
+    [] w = "e" -> <<44, 40, 110, 32, 43, 32, 49, 41>>
+    [] w = "v" -> <<44, 40, 118, 46, 99, 108, 111, 110, 101, 40, 41, 41>>
+    [] w = "b" -> <<44, 40, 110, 32, 62, 32, 49, 41>>
+    [] w = "c" -> <<44, 99, 104>>
+    [] w = "f" -> <<44, 102, 108>>
+    [] w = "o" -> <<44, 40, 83, 116, 114, 105, 110, 103, 58, 58, 102, 114, 111, 109, 40, 34, 111, 119, 110, 34, 41, 41>>
+    [] w = "y" -> <<44, 40, 118, 101, 99, 33, 91, 49, 117, 56, 44, 32, 50, 117, 56, 93, 41>>
+    [] w = "p" -> <<44, 40, 40, 49, 44, 32, 34, 120, 34, 41, 41>>
+    [] w = "w" -> <<44, 40, 118, 101, 99, 33, 91, 86, 97, 108, 117, 101, 58, 58, 102, 114, 111, 109, 40, 49, 41, 44, 32, 86, 97, 108, 117, 101, 58, 58, 102, 114, 111, 109, 40, 50, 41, 93, 41>>
+    [] w = "u" -> <<44, 40, 55, 117, 54, 52, 41>>
+    [] OTHER -> <<44, 40, 45, 55, 105, 56, 41>>
 UnqRender(w) ==
-  CASE w = "n" -> <<52, 50>> [] w = "s" -> <<DQ, 115, 116, 114, DQ>>
-    [] w = "e" -> <<52, 51>> [] OTHER -> <<115, 121, 109>>
+  CASE w = "n" -> <<52, 50>>
+    [] w = "s" -> <<34, 115, 116, 114, 34>>
+    [] w = "e" -> <<52, 51>>
+    [] w = "v" -> <<115, 121, 109>>
+    [] w = "b" -> <<35, 116>>
+    [] w = "c" -> <<35, 92, 206, 187>>
+    [] w = "f" -> <<50, 46, 53>>
+    [] w = "o" -> <<34, 111, 119, 110, 34>>
+    [] w = "y" -> <<35, 117, 56, 40, 49, 32, 50, 41>>
+    [] w = "p" -> <<40, 49, 32, 46, 32, 34, 120, 34, 41>>
+    [] w = "w" -> <<35, 40, 49, 32, 50, 41>>
+    [] w = "u" -> <<55>>
+    [] OTHER -> <<45, 55>>
 
 DigitChars(d) == [i \in 1..Len(d) |-> 48 + d[i]]
 SignedDigits(neg, d) == (IF neg THEN <<MINUS>> ELSE <<>>) \o DigitChars(d)
